@@ -598,8 +598,10 @@ class Model(CallsMixin, BuiltinsMixin):
         """O: factor state of a product."""
         oa, ob = a.orth, b.orth
         if oa is None or ob is None:
-            if oa in ('cols', 'rows') and ob is None:
-                return None
+            # a product with the weighted triangular / diagonal factor carries
+            # the weights (it is not an orthonormal factor)
+            if 'weighted' in (oa, ob):
+                return 'weighted'
             return None
         tbl = {
             ('cols', 'sigma'): 'weighted', ('sigma', 'rows'): 'weighted',
@@ -675,6 +677,18 @@ class Model(CallsMixin, BuiltinsMixin):
             dims = self.broadcast(da, db, node) if da is not None and \
                 db is not None else None
             self.unit_cmp(a, b, node)
+            if isinstance(op, ast.Eq):
+                for x, y in ((a, b), (b, a)):
+                    if x.k == 'arr' and x.idx == 'arange' and \
+                            y.k == 'int' and not y.nonneg and \
+                            not (y.has_const() and y.c >= 0):
+                        # a one-hot pattern  arange(n) == j : a position j
+                        # counted from the end (negative) matches nothing
+                        self.site('K-negidx', node, 'unknown',
+                                  'an index that may be negative (counted '
+                                  'from the end) is compared by value with '
+                                  'arange(n): negative positions select '
+                                  'nothing')
             return ARR(dims, 'b')
         if a.has_const() and b.has_const():
             try:
